@@ -1,6 +1,7 @@
 package main
 
 import (
+	"errors"
 	"fmt"
 	"net"
 	"time"
@@ -17,20 +18,26 @@ import (
 func init() { engines["natconn"] = natconnEngine }
 
 type recPC struct {
-	sets   []time.Time
-	nextRd struct {
+	failWrite bool // the next send fails (EINVAL for port 0, ENETUNREACH, EPERM ...)
+	sets      []time.Time
+	nextRd    struct {
 		addr net.Addr
 		n    int
 	}
 }
 
-func (p *recPC) ReadFrom(b []byte) (int, net.Addr, error)  { return p.nextRd.n, p.nextRd.addr, nil }
-func (p *recPC) WriteTo(b []byte, a net.Addr) (int, error) { return len(b), nil }
-func (p *recPC) Close() error                              { return nil }
-func (p *recPC) LocalAddr() net.Addr                       { return &net.UDPAddr{} }
-func (p *recPC) SetDeadline(t time.Time) error             { return nil }
-func (p *recPC) SetReadDeadline(t time.Time) error         { p.sets = append(p.sets, t); return nil }
-func (p *recPC) SetWriteDeadline(t time.Time) error        { return nil }
+func (p *recPC) ReadFrom(b []byte) (int, net.Addr, error) { return p.nextRd.n, p.nextRd.addr, nil }
+func (p *recPC) WriteTo(b []byte, a net.Addr) (int, error) {
+	if p.failWrite {
+		return 0, errors.New("sendto: invalid argument")
+	}
+	return len(b), nil
+}
+func (p *recPC) Close() error                       { return nil }
+func (p *recPC) LocalAddr() net.Addr                { return &net.UDPAddr{} }
+func (p *recPC) SetDeadline(t time.Time) error      { return nil }
+func (p *recPC) SetReadDeadline(t time.Time) error  { p.sets = append(p.sets, t); return nil }
+func (p *recPC) SetWriteDeadline(t time.Time) error { return nil }
 
 func natconnEngine(rng *Rng, n int, out *Out, args map[string]string) {
 	base := time.Now()
@@ -59,9 +66,17 @@ func natconnEngine(rng *Rng, n int, out *Out, args map[string]string) {
 			addr := &net.UDPAddr{IP: net.IPv4(203, 0, 113, 10), Port: port}
 			pc.sets = nil
 			if r.Chance(65) {
+				// a send that fails is still a datagram the client sent on this association: the
+				// promise (and above all the FIRST deadline, without which nothing ever reclaims the
+				// association) must not depend on the outcome of the send
+				pc.failWrite = r.Chance(25)
 				t0 := time.Now()
 				nc.WriteTo([]byte("x"), addr)
 				t1 := time.Now()
+				if pc.failWrite {
+					out.Stat("op.write.failed-send", 1)
+				}
+				pc.failWrite = false
 				want := timeout
 				if dns {
 					want = dnsTimeout
